@@ -56,6 +56,10 @@ pub struct Case {
     /// allocator fill policy of the run's thread (index into Fill::ALL; 0 = pass)
     #[serde(default)]
     pub fill: u8,
+    /// bulk forms only: > 0 = the n draws are pooled from many small bulk calls of this size (for the
+    /// N-D form: 1 = one row, 2 = dim rows, 3 = dim + 1 rows per call) instead of one call
+    #[serde(default)]
+    pub small_bulk: usize,
 }
 
 pub const DRAW_BUDGET: u64 = 100_000;
@@ -546,7 +550,13 @@ impl Prop for C03 {
         }
         let env = (r.below(2) as u8) | if r.chance(0.2) { 2 } else { 0 } | if visit % 2 == 1 { 4 } else { 0 };
         let fill = if r.chance(0.6) { 0 } else { 1 + r.below(4) as u8 };
-        Case { law: law.to_string(), params: fbs(&params), seeding, api, n, script, aux, via, default_ctor, pred, env, fill }
+        let small_bulk = if !faulty && visit % 4 == 0 && visit + 2 < clean_visits {
+            if *law == "MVN" { 1 + r.below(3) as usize } else { *r.pick(&[1usize, 3, 5, 7, 16]) }
+        } else {
+            0
+        };
+        let api = if small_bulk > 0 { Api::SampleN } else { api };
+        Case { law: law.to_string(), params: fbs(&params), seeding, api, n, script, aux, via, default_ctor, pred, env, fill, small_bulk }
     }
 
     fn exec(case: &Case, st: &mut Stats) -> Option<Viol> {
@@ -657,6 +667,11 @@ impl Prop for C03 {
             c.fill = 0;
             out.push(c);
         }
+        if case.small_bulk != 0 {
+            let mut c = case.clone();
+            c.small_bulk = 0;
+            out.push(c);
+        }
         if case.default_ctor {
             let mut c = case.clone();
             c.default_ctor = false;
@@ -711,7 +726,7 @@ impl Prop for C03 {
                 v.push(k);
             }
         }
-        for k in ["api.sample_loop", "api.sample_n", "api.sample_matrix", "seeding.seed_clock", "seeding.seed_small", "seeding.seed_set", "config.fault_free", "config.fault_injecting", "config.reached_by_update", "config.off_grid", "fault.rng_zero", "fault.rng_max", "fault.rng_tiny", "fault.rng_half", "fault.rng_tail", "fault.rng_streak", "fault.rng_pair", "fault.rng_zig_edge", "config.default_ctor", "config.preceded_by_other_object", "config.two_live_objects", "config.after_rejected_bulk_request", "config.mvn_preceded_by_sibling", "config.fill_policy_active", "config.mvn_structured", "check.dkw", "check.tail_points", "check.bulk_advances_stream", "check.mvn_projection", "check.mvn_second_moments", "check.serial_independence", "dpc.Normal.1", "dpc.Normal.2", "dpc.Normal.3+", "dpc.Poisson.4+", "dpc.Binomial.4+", "dpc.Gamma.4+"] {
+        for k in ["api.sample_loop", "api.sample_n", "api.sample_matrix", "api.small_bulk_calls", "seeding.seed_clock", "seeding.seed_small", "seeding.seed_set", "config.fault_free", "config.fault_injecting", "config.reached_by_update", "config.off_grid", "fault.rng_zero", "fault.rng_max", "fault.rng_tiny", "fault.rng_half", "fault.rng_tail", "fault.rng_streak", "fault.rng_pair", "fault.rng_zig_edge", "config.default_ctor", "config.preceded_by_other_object", "config.two_live_objects", "config.after_rejected_bulk_request", "config.mvn_preceded_by_sibling", "config.fill_policy_active", "config.mvn_structured", "check.dkw", "check.tail_points", "check.bulk_advances_stream", "check.mvn_projection", "check.mvn_second_moments", "check.serial_independence", "dpc.Normal.1", "dpc.Normal.2", "dpc.Normal.3+", "dpc.Poisson.4+", "dpc.Binomial.4+", "dpc.Gamma.4+"] {
             v.push(k.to_string());
         }
         v
@@ -818,6 +833,27 @@ fn exec_1d(case: &Case, law: &str, p: &[f64], reg: &str, st: &mut Stats, h: &mut
             }
             for (k, c) in hist.iter().enumerate() {
                 st.add(&format!("dpc.{}.{}", law, dpc_bucket(k as u64)), *c);
+            }
+        }
+        Api::SampleN if case.small_bulk > 0 => {
+            // the n draws pooled from many small bulk calls: every element of every call must be a draw
+            st.inc("api.small_bulk_calls");
+            let k = case.small_bulk;
+            while xs.len() < n {
+                let m = k.min(n - xs.len());
+                alea::sim::set_budget(DRAW_BUDGET + 256 * m as u64);
+                match catch(|| obj.sample_n(m)) {
+                    Ok(v) => {
+                        if v.len() != m {
+                            return mk("bulk_shape", "wrong_count", format!("sample_n({}) returned {} values", m, v.len()));
+                        }
+                        xs.extend_from_slice(&v);
+                    }
+                    Err(e) => {
+                        let class = if is_budget_panic(&e) { "nontermination" } else { "panic" };
+                        return mk("sampling_terminates", class, format!("{}({:?}).sample_n({}): {}", law, p, m, e));
+                    }
+                }
             }
         }
         Api::SampleN => {
@@ -1078,6 +1114,29 @@ fn exec_mvn(case: &Case, p: &[f64], st: &mut Stats, h: &mut H64, faulty: bool) -
                     Err(m) => {
                         let class = if is_budget_panic(&m) { "nontermination" } else { "panic" };
                         return mk("sampling_terminates", class, format!("MVN(dim {}).sample() call #{}: {}", d, i, m));
+                    }
+                }
+            }
+            out
+        }
+        _ if case.small_bulk > 0 => {
+            st.inc("api.small_bulk_calls");
+            let k = match case.small_bulk { 1 => 1, 2 => d, _ => d + 1 };
+            let mut out = Vec::with_capacity(n * d);
+            let mut rows = 0usize;
+            while rows < n {
+                let m = k.min(n - rows);
+                match catch(|| DistributionND::sample_n(&mvn, m)) {
+                    Ok(mm) => {
+                        if mm.nrows != m || mm.ncols != d || mm.data.len() != m * d {
+                            return mk("bulk_shape", "wrong_shape", format!("DistributionND::sample_n({}) returned {}x{} with {} elements (dim {})", m, mm.nrows, mm.ncols, mm.data.len(), d));
+                        }
+                        out.extend_from_slice(&mm.data.v);
+                        rows += m;
+                    }
+                    Err(e) => {
+                        let class = if is_budget_panic(&e) { "nontermination" } else { "panic" };
+                        return mk("sampling_terminates", class, format!("MVN(dim {}) sample_n({}): {}", d, m, e));
                     }
                 }
             }
